@@ -35,7 +35,7 @@ TSnap == /\ IsEvent("snap") /\ Strict
          /\ Range(Ev.jr) = jr
          /\ UNCHANGED vars
 (* a file built from sorted file + journal: token entries {k,o,s}; its live entries are exactly the live set *)
-BuiltOK(raw) == /\ {raw[i].k : i \in {j \in 1..Len(raw) : raw[j].s > 0}} = LiveSet
+BuiltOK(raw) == /\ {raw[i].k : i \in {j \in 1..Len(raw) : raw[j].s >= 0}} = LiveSet
                 /\ \A i \in 1..Len(raw) : IsLive(raw[i].k) => raw[i].o = ent[raw[i].k].o /\ raw[i].s = ent[raw[i].k].s
 TRebuild == IsEvent("rebuild") /\ Strict /\ Ev.err = "" /\ BuiltOK(Ev.raw) /\ Ev.other = 0 /\ UNCHANGED vars
 TRebuildInPlace == IsEvent("rebuildinplace") /\ Strict /\ Ev.err = "" /\ RebuildInPlace /\ UNCHANGED hist
